@@ -312,6 +312,72 @@ async def run_set_call_frames(product, idx, triple, value, retries, timeout, eve
     return outs, [q.values.value, q.values.min_value, q.values.max_value], None
 
 
+async def run_eco_reports(product, payloads, slow, pidx, value, settled_first=False):
+    """A REAL ecoMAX with user subscriptions on some of its parameter events (`slow`: [table position, loop iterations its
+    subscriber awaits, the call on which it does so]) receives the ecoMAX-parameters responses `payloads` back to back
+    (no pause between them; settled_first: the first one is handled completely before the others arrive, so that the
+    parameter objects exist); once everything has settled, parameter `pidx` is set to `value`.
+    Returns ["no-parameter"] | [outcome, [[index, value] per queued set request], held triple]."""
+    from pyplumio.const import ProductType
+    from pyplumio.devices.ecomax import EcoMAX
+    from pyplumio.frames import responses as R
+    from pyplumio.structures import ecomax_parameters as EP
+    from pyplumio.structures.network_info import NetworkInfo
+    from harness import proto_impl as PI
+    queue = asyncio.Queue()
+    dev = EcoMAX(queue, network=NetworkInfo())
+    table = EP.ECOMAX_PARAMETERS[ProductType(product)]
+
+    async def settle(n=12):
+        for _ in range(n):
+            await asyncio.sleep(0)
+
+    dev.handle_frame(R.UIDResponse(message=bytearray(PI.payload("responses/uid.json", {0: "EM350P2_uid", 1: "ecoMAX_850i_uid"}[product]))))
+    await settle()
+    for pos, hops, on_call in slow:
+        state = {"calls": 0}
+
+        async def cb(value, state=state, hops=hops, on_call=on_call):
+            state["calls"] += 1
+            if state["calls"] == on_call:
+                for _ in range(hops):
+                    await asyncio.sleep(0)
+        dev.subscribe(table[pos].name, cb)
+    for k, pl in enumerate(payloads):
+        dev.handle_frame(R.EcomaxParametersResponse(message=bytearray(pl)))
+        if k == 0 and settled_first:
+            await settle(40)
+    await settle(40)
+    while not queue.empty():
+        queue.get_nowait()
+    try:
+        par = dev.data.get(table[pidx].name)
+        if par is None:
+            return ["no-parameter"]
+        task = asyncio.ensure_future(par.set(value, retries=1, timeout=1.0))
+        await settle()
+        sent = []
+        while not queue.empty():
+            f = queue.get_nowait()
+            if int(f.frame_type) == 51:
+                sent.append(list(f.message))
+        if task.done():
+            exc = task.exception()
+            out = "ValueError" if isinstance(exc, ValueError) else ("returned" if exc is None else type(exc).__name__)
+        else:
+            out = "pending"
+            task.cancel()
+            try:
+                await task
+            except BaseException:  # noqa: BLE001
+                pass
+        return [out, sent, [par.values.value, par.values.min_value, par.values.max_value]]
+    finally:
+        for t in list(dev.tasks):
+            t.cancel()
+        await asyncio.gather(*dev.tasks, return_exceptions=True)
+
+
 async def run_mixer_session(product, payloads, mixer, pidx, value):
     """A REAL ecoMAX receives the mixer-parameters responses `payloads` in order; then parameter `pidx` (table position) of
     mixer `mixer` is set to `value` through the Mixer device the library created.  Returns
